@@ -272,6 +272,8 @@ def baseSubmit (A : Alg D) (m : M D) (c : Cid) (data : Bytes) (flags : Nat) : M 
   else if x.processing ∧ flags = 3 then (setCtx m c { x with error := errAlreadyProcessing }, some c)
   else if x.complete ∧ flags % 2 = 0 then (setCtx m c { x with error := errAlreadyCompleted }, some c)
   else
+    -- `ctx->error = ISAL_HASH_CTX_ERROR_NONE` once the three tests have passed (fix F16)
+    let x : Ctx D := { x with error := 0 }
     let x' := match flags with
       | 1 => baseUpdate A (baseInit A x) data
       | 0 => baseUpdate A x data
